@@ -142,6 +142,7 @@ class World:
         import canopen
         simenv.new_world()
         self.bus = simenv.SimBus("inline")
+        self.bus.reuse_rx = True         # the interface re-uses its receive buffer
         self.A, self.B = canopen.Network(), canopen.Network()
         self.bus.attach(self.A, "m")
         self.bus.attach(self.B, "d")
